@@ -9,6 +9,7 @@ import (
 
 	"github.com/synnaxlabs/cesium/internal/channel"
 	"github.com/synnaxlabs/cesium/internal/unary"
+	"github.com/synnaxlabs/cesium/internal/virtual"
 	"github.com/synnaxlabs/x/confluence"
 	xcontrol "github.com/synnaxlabs/x/control"
 	"github.com/synnaxlabs/x/errors"
@@ -85,6 +86,7 @@ func verifStreamDB(ctx context.Context) (*DB, confluence.Outlet[relayResponse]) 
 	stream := confluence.NewStream[relayResponse](8)
 	db := &DB{options: &options{fs: fs, metaCodec: codec}, closed: &atomic.Bool{}, relay: &relay{inlet: stream}}
 	db.mu.dbs.unary = map[ChannelKey]unary.DB{verifIdxKey: *idx, verifDataKey: *data}
+	db.mu.dbs.virtual = map[ChannelKey]virtual.DB{}
 	return db, stream
 }
 
